@@ -99,3 +99,9 @@ package frontend
 //@ contract iface Rangechecker.Check
 //@   pure
 //@   ensures fits(ival(den(v)), bits)
+
+// Committer: the data a native commitment was taken over (ghost), as the sequence id of the argument slice
+//@ ghost committedSeq int
+//@ contract iface Committer.Commit
+//@   assigns committedSeq(recv, 0)
+//@   ensures committedSeq(recv, 0) == seqOf(toCommit) && (result.1 == nil ==> stable(result.0))
